@@ -67,35 +67,21 @@ Definition runtime_says (p : pred) (t : ity) : option bool :=
 Definition in_domain (p : pred) (t : ity) : bool :=
   match runtime_says p t with Some _ => true | None => false end.
 
-(* guards (computable): shape of the wrapper chain the code can resolve, and the two excluded regions *)
-Definition no_wrapper (t : ity) : bool :=
-  match t with INewType _ _ | IAlias _ _ | IAliasStr _ _ => false | _ => true end.
-Definition chain_ok (t : ity) : bool :=
-  match resolve_supertype t with IAlias _ v => no_wrapper v | x => no_wrapper x end.
-Definition core_is_class (t : ity) : bool := match strip t with IClass _ => true | _ => false end.
-Definition c17_guard (p : pred) (t : ity) : bool :=
-  chain_ok t &&
-  match family_of p with
-  | Some (FRaw _) => core_is_class t
-  | Some _ => match resolved_class true t with
-              | Some d => negb (subclass T d c_abcCallable)
-              | None => false
-              end
-  | None => false
-  end.
+(* after the repairs no guard is left for the subclass-test predicates: the domain is the guard *)
+Definition c17_guard (p : pred) (t : ity) : bool := in_domain p t.
 
 (* the tail of origin(): generic map unless builtin, then callable => typing.Callable *)
 Definition finish (o : ity) : ity :=
   let a4 := if isbuiltintype T o then o else check_generics T o in
-  if iscallable T a4 then ITyping ta_Callable else a4.
+  if iscallable T a4 && negb (is_class a4) then ITyping ta_Callable else a4.
 
 (* what the proofs need from the reflected tables; checked by computation on every run *)
 Definition tables_ok : bool :=
   forallb (fun kv => is_class (snd kv)) (t_generic_map T)
   && subclass T c_tuple c_tuple
   && forallb (fun a => negb (N.eqb (snd (snd a)) c_NoneType)) (t_talias T)
-  && String.eqb (name T (finish (IClass c_UnionType))) "UnionType"
-  && String.eqb (name T (finish (ISpecial SUnion))) "Union".
+  && ity_eqb (finish (IClass c_UnionType)) (IClass c_UnionType)
+  && ity_eqb (finish (ISpecial SUnion)) (ISpecial SUnion).
 
 (* collection annotations: classes below collections.abc.Collection that are abstract and have no
    concrete image under the documented map *)
